@@ -34,7 +34,7 @@ REGISTRY = {
     'C18': dict(module='c18', level='other', technique='abstract interpretation of belt_wblock_enc/dec: every short length (store-free rejection), all lengths >= 32 at once with a relational (linear-term + interval) length; global value numbering against the reference round',
                 quick=['x64', 'x64-all'], thorough=['x64', 'x64-all', 'a64', 'x86']),
     'C20': dict(module='c20', level='proof', technique='abstract interpretation of monomorphic MIR (intervals x known-bits, constant propagation with unrolling) discharging every panic edge',
-                quick=['x64'], thorough=['x64', 'x64-soft', 'x64-alt1', 'x64-alt2', 'a64', 'x86', 'x86-alt1-all']),
+                quick=['x64', 'x64-soft', 'x64-alt1'], thorough=['x64', 'x64-soft', 'x64-alt1', 'x64-alt2', 'a64', 'x86', 'x86-alt1-all']),
     'C11': dict(module='c11', level='proof', technique='abstract interpretation of every constructor for every key length 0..=300 and [301, usize::MAX]; global value numbering for padding equivalence',
                 quick=['x64'], thorough=['x64', 'x64-soft', 'x64-alt1', 'x64-alt2', 'a64', 'x86']),
     'C19': dict(module='c19', level='proof', technique='use analysis of `self` + string constant propagation over formatting MIR (static analysis)',
